@@ -20,12 +20,17 @@ let check_iter (line:string) : unit =
     let yielded : (int*int*int) list ref = ref [] in
     let cur_mask = ref m64 in
     let batch : (int * (int*int*int) option) list ref = ref [] in   (* (len before, result) in reverse *)
+    let model_batch : (int*int*int) list ref = ref [] in
     let ctx = enc in
     let nontrivial = ref false in
     let close_batch () =
       (* called when next() returned None: check the batch *)
       let items = List.rev !batch in
       let somes = List.filter_map snd items in
+      if List.sort compare somes <> List.sort compare !model_batch then
+        mismatch "iter_next_model" (Printf.sprintf "%s batch under mask %s: impl [%s] model [%s]" ctx (u64s_of_n !cur_mask)
+                                      (String.concat " " (List.map mvs_of_triple (List.sort compare somes))) (String.concat " " (List.map mvs_of_triple (List.sort compare !model_batch))));
+      model_batch := [];
       (* len before each call = number of moves still to be yielded in this batch *)
       let total = List.length somes in
       List.iteri (fun i (l, r) ->
@@ -70,8 +75,13 @@ let check_iter (line:string) : unit =
                 if ml <> li then mismatch "iter_len_model" (Printf.sprintf "%s len impl=%d model=%d" ctx li ml);
                 let (r, g') = next !g in
                 g := g';
-                let rs = (match r with None -> "-" | Some m -> let (a,b,c) = triple_of_cmove m in Printf.sprintf "%d/%d/%d" a b c) in
-                if rs <> mv then mismatch "iter_next_model" (Printf.sprintf "%s next impl=%s model=%s" ctx mv rs);
+                (* the ORDER in which moves are generated is not part of any property: the model's
+                   own order is followed independently and only exhaustion must coincide call by
+                   call; the yielded moves are compared as sets when the batch closes *)
+                (match r with
+                 | None -> if mv <> "-" then mismatch "iter_next_model" (Printf.sprintf "%s model exhausted, impl yields %s" ctx mv)
+                 | Some m -> if mv = "-" then mismatch "iter_next_model" (Printf.sprintf "%s impl exhausted, model still yields" ctx)
+                             else model_batch := triple_of_cmove m :: !model_batch);
                 if mv = "-" then begin batch := (li, None) :: !batch; close_batch () end
                 else begin
                   let t = triple_of_slash mv in
